@@ -7,12 +7,17 @@
 #define private public
 #include "ephemeralnet/core/Node.hpp"
 #undef private
+#include "src/core/ChunkStore.cpp"
+namespace { ephemeralnet::protocol::Manifest g_manifest; }
+namespace ephemeralnet::protocol { Manifest decode_manifest(const std::string&) { return g_manifest; } }
 namespace ephemeralnet {
 namespace {
 using SchedulerLock = std::unique_lock<std::recursive_mutex>;
 #include SNIP_K_FAILURE_WINDOW
 #include SNIP_K_LOCKOUT
 #include SNIP_K_THRESHOLD
+// only reached with a non-empty endpoint, which the harness never sets: present for compilation only
+std::optional<std::pair<std::string, std::uint16_t>> parse_endpoint(const std::string&) { return std::nullopt; }
 }
 #include SNIP_REGISTER_ANNOUNCE
 #include SNIP_SENDER_LOCKED
@@ -31,6 +36,15 @@ using SchedulerLock = std::unique_lock<std::recursive_mutex>;
 #include SNIP_DISPATCH_START
 #include SNIP_DISPATCH_END
 #include SNIP_CLEAR_PENDING
+#include SNIP_SCHEDULE_ASSIGNED
+#include SNIP_DISPATCH_PENDING
+// cut points of the fetch path: role ledger, provider refresh and the transport sends (arbitrary outcome); process_pending_fetches is driven by the harness step by step
+void Node::note_peer_seed(const ChunkId&, const PeerId&) {}
+void Node::note_local_leecher(const ChunkId&) {}
+void Node::refresh_provider_count(PendingFetchState&, std::chrono::steady_clock::time_point, bool) {}
+void Node::process_pending_fetches() {}
+bool Node::send_chunk_request_direct(const ChunkId&, const PeerId&) { return nondet_bool("request_sent"); }
+bool Node::request_chunk(const PeerId&, const std::string&, std::uint16_t, const std::string&) { return false; }
 // the send path (manifest lookup, record lookup, signing, transport) is cut: whether a request can be served and sent is arbitrary;
 // exactly like the real dispatch_upload, a slot is taken (note_upload_start) only after a successful send
 static unsigned g_negative_acks = 0;
@@ -61,6 +75,8 @@ struct PartialNode {
         new (&n->peak_active_uploads_) std::atomic<std::size_t>(0);
         new (&n->pending_chunk_fetches_) decltype(n->pending_chunk_fetches_)();
         new (&n->active_peer_requests_) decltype(n->active_peer_requests_)();
+        new (&n->manifest_cache_) decltype(n->manifest_cache_)();
+        new (&n->chunk_store_) ChunkStore(Config{});
     }
 };
 PeerId peer_n(unsigned n) { PeerId p{}; p[0] = static_cast<std::uint8_t>(0xA0 + n); p[31] = static_cast<std::uint8_t>(n); return p; }
@@ -193,5 +209,36 @@ extern "C" void h_c24_fetch_slots(unsigned long k) {
         const std::size_t counter = it == n->active_peer_requests_.end() ? 0 : it->second;
         verif_assert(counter == in_flight, "C24: a peer's in-flight count equals its outstanding requests (zero when none is outstanding)");
         if (limit) verif_assert(counter <= limit, "C24: no peer has more in-flight requests than the configured limit");
+    }
+}
+// announce / re-announce of assigned fetches (schedule_assigned_fetch), dispatch (dispatch_pending_fetch under the same guard as
+// process_pending_fetches: not in flight and a free slot) and arrival (clear_pending_fetch), two peers x two chunks
+extern "C" void h_c24_reannounce(unsigned long k, unsigned long seq) {
+    PartialNode pn; Node* n = pn.node();
+    const unsigned limit = nondet_u8("max_parallel_requests") & 3; n->config_.fetch_max_parallel_requests = static_cast<std::uint16_t>(limit);
+    verif_env::start_clock();
+    g_manifest = protocol::Manifest{}; g_manifest.threshold = 1;
+    for (unsigned long i = 0; i < k; ++i) {
+        verif_env::advance_clock();
+        const unsigned op = static_cast<unsigned>(seq % 3); seq /= 3;
+        const bool pb = nondet_bool("peer"), cb = nondet_bool("chunk");
+        if (i == 0) verif_assume(!pb && !cb);          // symmetry
+        const unsigned p = verif_concretize(pb, 2) ? 1 : 0, c = verif_concretize(cb, 2) ? 1 : 0;
+        const std::string key = chunk_id_to_string(chunk_n(c));
+        if (op == 0) {
+            protocol::AnnouncePayload a{}; a.chunk_id = chunk_n(c); a.peer_id = peer_n(p); a.manifest_uri = "eph://m"; a.assigned_shards.push_back(1);
+            g_manifest.chunk_id = chunk_n(c);
+            n->schedule_assigned_fetch(a); verif_reach("announce");
+        } else if (op == 1) {
+            auto it = n->pending_chunk_fetches_.find(key);
+            if (it != n->pending_chunk_fetches_.end() && !it->second.in_flight && n->can_dispatch_fetch(it->second)) { (void)n->dispatch_pending_fetch(it->second); verif_reach("dispatch"); }
+        } else { n->clear_pending_fetch(key); verif_reach("arrival"); }
+        for (unsigned q = 0; q < 2; ++q) {
+            std::size_t in_flight = 0; for (const auto& e : n->pending_chunk_fetches_) if (e.second.in_flight && e.second.peer_id == peer_n(q)) ++in_flight;
+            const auto it = n->active_peer_requests_.find(peer_id_to_string(peer_n(q)));
+            const std::size_t counter = it == n->active_peer_requests_.end() ? 0 : it->second;
+            verif_assert(counter == in_flight, "C24: a peer's in-flight count equals its outstanding requests, also across re-announcements (zero when none is outstanding)");
+            if (limit) verif_assert(counter <= limit, "C24: no peer has more in-flight requests than the configured limit");
+        }
     }
 }
